@@ -45,6 +45,13 @@ if kind in ("row", "any"):
         print("max |K_part - K_global| on owned rows =", K["max_row_diff"], "(scale %%g) at" %% K["scale"], K["worst_at"], " expected 0")
         print("sum over parts of owned-row energies =", K["E_sum_parts"], " global energy =", K["E_global"])
         bad = bad or K["max_row_diff"] > 1e-10 * K["scale"] or abs(K["E_sum_parts"] - K["E_global"]) > 1e-10 * abs(K["E_global"])
+if kind in ("energy", "any"):
+    I = (res.get("K") or {}).get("impl") or {}
+    if I:
+        print("sum over parts of simu.Calc_Energy(K_part, u, dofs=owned) =", I["E_sum_parts"], " global simu.Calc_Energy =", I["E_global"], " 1/2 u.K u =", I["E_formula_global"])
+        print("max |sum over parts of Calc_Reaction(owned dofs) - global Calc_Reaction| =", I["R_diff"], " |global reaction - K u| =", I["R_vs_Ku"], "(scale %%g)" %% I["R_scale"])
+        bad = bad or abs(I["E_sum_parts"] - I["E_global"]) > 1e-10 * abs(I["E_global"]) or abs(I["E_global"] - I["E_formula_global"]) > 1e-10 * abs(I["E_formula_global"]) \
+            or max(I["R_diff"], I["R_vs_Ku"]) > 1e-10 * I["R_scale"]
 if kind in ("owners", "any"):
     ranks = {g["type"]: sorted(set(g["rank"])) for g in res["groups"] if g["main"]}
     print("owner ranks seen per main group (-1 none, -2 several):", ranks, " nodes partitioned:", res["nodes_partitioned"])
@@ -384,10 +391,27 @@ def run(ctx):
         ctx.violation("static-lib-build", "coq/lib or coq/model does not build", {"log": log[-3000:]}, found_input=False)
         return
     files = ctx.copy_props("C20/C20_theorems.v")
+    # body of _Simu.Calc_Energy, regenerated from ctx.repo (fail closed)
+    try:
+        from translator import C20_energy as T_energy
+        ce = T_energy.read_calc_energy(ctx.repo)
+        open(os.path.join(ctx.build, "Gen_CalcEnergy.v"), "w").write(T_energy.emit_coq(ce))
+        ctx.obligation("translate:Calc_Energy", True, ce["tree"])
+        ctx.cov["calc_energy_translated_form"] = ce["tree"]
+        files = files + ["Gen_CalcEnergy.v"] + ctx.copy_props("C20/C20_calc_energy.v")
+    except Exception as ex:
+        ctx.obligation("translate:Calc_Energy", False, str(ex))
+        ctx.violation("translate:Calc_Energy", "translator rejected the body of _Simu.Calc_Energy (the energy theorems no longer apply to the source): %s" % ex,
+                      {"construct": str(ex)}, found_input=False)
     res = ctx.coq(files, timeout=600)
     if not res.ok:
-        ctx.violation("coq:C20_theorems", "the property theorems no longer compile", {"log": res.log[-3000:]}, found_input=False)
-        return
+        if res.failed_file == "C20_calc_energy.v":
+            # keep going: the correspondence below calls the real Calc_Energy on every part
+            ctx.violation("coq:C20_calc_energy", "the body of _Simu.Calc_Energy translated from the source is no longer the owned-rows x full-vector form the energy theorems are about (C20_calc_energy_is_owned_rows_full_vector does not compile)",
+                          {"log": res.log[-600:], "translated": ctx.cov.get("calc_energy_translated_form")}, found_input=False)
+        else:
+            ctx.violation("coq:C20_theorems", "the property theorems no longer compile", {"log": res.log[-3000:]}, found_input=False)
+            return
 
     # ---------------- implementation runs ----------------
     cases = gen_cases(ctx)
@@ -433,6 +457,7 @@ def run(ctx):
 
     # ---------------- judge ----------------
     matchA = matchB = total = 0
+    n_impl_energy = n_impl_solved = 0
     dist = {}
     margin = []
     viol_keys = set()
@@ -486,6 +511,25 @@ def run(ctx):
                     (K["worst_at"] or {}).get("rank"), (K["worst_at"] or {}).get("node"), K["max_row_diff"], K["scale"], K["E_sum_parts"], K["E_global"])
             elif worst > TIGHT:
                 margin.append((c["id"], worst))
+            I = K.get("impl") or {}
+            if I:
+                # Calc_Energy(A, x, dofs=owned) and Calc_Reaction(owned dofs) of the IMPLEMENTATION, part by
+                # part, summed here (serial Reduce_sum = identity) vs the global call: C20_energy_sum_fixed_general
+                ie = abs(I["E_sum_parts"] - I["E_global"]) / max(abs(I["E_global"]), 1e-300)
+                ig = abs(I["E_global"] - I["E_formula_global"]) / max(abs(I["E_formula_global"]), 1e-300)
+                ir = max(I["R_diff"], I["R_vs_Ku"]) / I["R_scale"]
+                iw = max(ie, ig, ir)
+                n_impl_energy += 1
+                n_impl_solved += bool(I["solved_field"])
+                if iw > TOL and not (r["row_incomplete_count"] or kbad):
+                    key = "calc-energy-reaction:%s" % ("energy" if max(ie, ig) > TOL else "reaction")
+                    if key not in viol_keys:
+                        viol_keys.add(key)
+                        ctx.violation(key, "%s, Nproc=%d (%s field): sum over the parts of simu.Calc_Energy(K_part, u, dofs=owned) = %.12g, global Calc_Energy = %.12g (1/2 u.K u = %.12g); Calc_Reaction summed over parts differs from the global one by %.3g (scale %.3g)"
+                                      % (tag, c["Nproc"], "solved" if I["solved_field"] else "random", I["E_sum_parts"], I["E_global"], I["E_formula_global"], I["R_diff"], I["R_scale"]),
+                                      {"replay_py": REPLAY % dict(case=c, kind="energy"), "case": c, "impl": I, "theorem": "C20_energy_sum_fixed_general / C20_reaction_sum_fixed_general"})
+                elif iw > TIGHT:
+                    margin.append((c["id"], iw))
         if r["row_incomplete_count"] or kbad:
             if nmain > 1:
                 mixed_incomplete.append((c, r, kmsg if kbad else ""))
@@ -522,7 +566,8 @@ def run(ctx):
     nbok = sum(1 for c in cases if by_id.get(c["id"], {}).get("boundary_ok"))
     ctx.cov["hypothesis_boundary_ok_holds_on_cases"] = "%d/%d" % (nbok, total)
     variant = "as-written" if matchA == total else ("fixed" if matchB == total else "neither")
-    ctx.cov.update({"partition_cases": total, "match_model_as_written": matchA, "match_model_fixed": matchB,
+    ctx.cov.update({"calc_energy_reaction_cases": n_impl_energy, "calc_energy_cases_with_solved_field": n_impl_solved,
+                    "partition_cases": total, "match_model_as_written": matchA, "match_model_fixed": matchB,
                     "implementation_variant": variant, "case_distribution": dist,
                     "Nproc_values": sorted(set(c["Nproc"] for c in cases)),
                     "margin_used_between_1e-12_and_1e-10": margin[:10],
